@@ -165,7 +165,30 @@ Control ==
        <<Emit1(C(SymV("next-unit")))>> >> : w \in Winds }
 
 -----------------------------------------------------------------------------
+(* delim: reset / shift (Filinski's construction, exactly as scheme/stdlib.scm defines it) *)
+KK1 == App(V("k2"), <<I(1)>>)
+KK2 == App(V("k2"), <<KK1>>)
+InnerReset == Reset(P("+", <<I(10), Shift("k2", KK2)>>))
+KUse == { V("k2"),                                                  \* not invoked: the value of the shift body replaces the reset
+          I(7),
+          KK1,
+          KK2,
+          P("+", <<KK1, App(V("k2"), <<I(2)>>)>>),
+          P("list", <<KK1, App(V("k2"), <<I(2)>>)>>),
+          Begin(<<Emit1(C(SymV("in-shift"))), App(V("k2"), <<I(3)>>)>>) }
+DCtx == { [nm |-> "plus", mk |-> [u \in KUse |-> P("+", <<I(10), Shift("k2", u)>>)]],
+          [nm |-> "list", mk |-> [u \in KUse |-> P("list", <<C(SymV("a")), Shift("k2", u), C(SymV("b"))>>)]],
+          [nm |-> "let", mk |-> [u \in KUse |-> Let(<< <<"t", Shift("k2", u)>> >>, P("*", <<V("t"), I(2)>>))]],
+          [nm |-> "begin-emit", mk |-> [u \in KUse |-> Begin(<<Emit1(C(SymV("before"))), P("+", <<I(1), Shift("k2", u)>>)>>)]],
+          [nm |-> "two-shifts", mk |-> [u \in KUse |-> P("+", <<Shift("k2", u), Shift("k2", App(V("k2"), <<I(100)>>))>>)]] }
+Delim ==
+  { << <<Emit1(P("+", <<I(1000), Reset(cx.mk[u])>>)), Emit1(C(SymV("after")))>> >> : cx \in DCtx, u \in KUse \ {V("k2")} }
+  \cup { << <<Emit1(Reset(Wrap(w, cx.mk[u]))), Emit1(C(SymV("after")))>> >> : cx \in DCtx, u \in {I(7), KK1, KK2}, w \in {1, 2} }
+  \cup { << <<Emit1(Reset(P("+", <<I(1), InnerReset>>))), Emit1(C(SymV("after")))>> >>,
+          << <<Emit1(P("+", <<I(1), Shift("k2", I(5))>>)), Emit1(C(SymV("not-reached")))>>, <<Emit1(C(SymV("next-unit")))>> >> }
+
 Programs == CASE FAMILY = "calls" -> Calls
+              [] FAMILY = "delim" -> Delim
               [] FAMILY = "tail" -> TailFam
               [] FAMILY = "control" -> Control
 
